@@ -97,22 +97,37 @@ theorem c10_parse_any_aug {X Y : Type} {D : AugDec X Y} {p : Bool} {n : Nat} {c 
 
 
 /-- the same through the public entry points: `parse_hashmap_aug` / `Slice.load_hashmap_aug` on an ordinary root return
-(int-keyed dict of the leaves, extras); `Slice.load_hashmap_aug_e` on a slice `1 ^root` likewise, on `0 …` it returns the empty dict
-and the rest of the slice, on a special (exotic) slice the cell itself. -/
+(int-keyed dict of the leaves, extras); `Slice.load_hashmap_aug_e` on a slice `1 ^root extra` (`ahme_root`) likewise, provided the
+top-level extra is readable; on `0 extra` (`ahme_empty`) it returns the empty dict and that extra; on a special (exotic) slice
+the cell itself. -/
 theorem c10_parse_any_aug_api {X Y : Type} {D : AugDec X Y} {p : Bool} {n : Nat} {bits refs} {kv : List (Bits × X)} {ex : List Y}
-    (hn : 0 < n) (h : ValidAug D p n (.mk (-1) bits refs) kv ex) (rest : Bits) (more : List Cell) :
+    (hn : 0 < n) (h : ValidAug D p n (.mk (-1) bits refs) kv ex) (rest : Bits) (more : List Cell)
+    (y : Y) (sl : Spec.Hashmap.Val) (hy : D.decY (rest, more) = some (y, sl)) :
     (match parseHashmapAug D (.mk (-1) bits refs) n with | .dict r => r = (intKeys kv, ex) | _ => False) ∧
     (match loadHashmapAugE D (-1) (true :: rest) (.mk (-1) bits refs :: more) n with
       | .dict r e => r = intKeys kv ∧ e = ex | _ => False) ∧
-    (match loadHashmapAugE D (-1) (false :: rest) more n with | .empty b r => b = rest ∧ r = more | _ => False) ∧
+    (match loadHashmapAugE D (-1) (false :: rest) more n with | .empty y' => y' = y | _ => False) ∧
     (match loadHashmapAugE D 1 rest more n with | .cell => True | _ => False) := by
   have h1 := parseHashmapAug_valid hn h
-  refine ⟨h1, ?_, by simp [loadHashmapAugE], by simp [loadHashmapAugE]⟩
+  refine ⟨h1, ?_, by simp [loadHashmapAugE, hy], by simp [loadHashmapAugE]⟩
   simp only [loadHashmapAugE, ne_eq, not_true_eq_false, if_false]
   cases hq : parseHashmapAug D (.mk (-1) bits refs) n with
-  | err => rw [hq] at h1; exact h1
-  | none => rw [hq] at h1; exact h1
-  | dict r => rw [hq] at h1; simp only at h1; subst h1; simp
+  | err => rw [hq] at h1; exact h1.elim
+  | none => rw [hq] at h1; exact h1.elim
+  | dict r => rw [hq] at h1; simp only at h1; subst h1; simp [hy]
+
+/-- an unreadable top-level extra makes `load_hashmap_aug_e` raise (both constructors) -/
+theorem c10_aug_e_extra_required {X Y : Type} {D : AugDec X Y} (n : Nat) (c : Cell) (rest : Bits) (more : List Cell)
+    (hy : D.decY (rest, more) = none) :
+    (match loadHashmapAugE D (-1) (true :: rest) (c :: more) n with | .err => True | _ => False) ∧
+    (match loadHashmapAugE D (-1) (false :: rest) more n with | .err => True | _ => False) := by
+  constructor
+  · simp only [loadHashmapAugE, ne_eq, not_true_eq_false, if_false]
+    cases parseHashmapAug D c n with
+    | err => trivial
+    | none => simp [hy]
+    | dict r => simp [hy]
+  · simp [loadHashmapAugE, hy]
 
 /-! non-vacuity of `c10_parse_any`: -/
 /-- a non-canonical but valid 1-bit dictionary {0 ↦ 1111, 1 ↦ 0000}: root label `hml_long`, leaf labels `hml_same` / `hml_long` -/
